@@ -27,6 +27,22 @@ def nobody():
         return None
 
 
+def become_users():
+    """(become_user text, expected uid, expected gid): nobody by name and by number, and a user whose primary
+    group id differs from its user id, by name and by number (a numeric become_user must be looked up too)"""
+    out = []
+    try:
+        p = pwd.getpwnam("nobody")
+        out += [("nobody", p.pw_uid, p.pw_gid), (str(p.pw_uid), p.pw_uid, p.pw_gid)]
+    except KeyError:
+        pass
+    odd = [u for u in pwd.getpwall() if u.pw_uid != u.pw_gid and u.pw_uid not in (0, 65534)]
+    if odd:
+        u = sorted(odd, key=lambda u: u.pw_uid)[0]
+        out += [(u.pw_name, u.pw_uid, u.pw_gid), (str(u.pw_uid), u.pw_uid, u.pw_gid)]
+    return out
+
+
 def run_transfer(root, pre, argv_or_cmd, chdir, become, vh_exit, rash_env_args, post=True, missing=False):
     shutil.rmtree(root, ignore_errors=True)
     os.makedirs(os.path.join(root, "wd sub"))
@@ -45,13 +61,13 @@ def run_transfer(root, pre, argv_or_cmd, chdir, become, vh_exit, rash_env_args, 
         L += ["    chdir: " + json.dumps(chdir)]
     L += ["    transfer_pid: true"]
     if become:
-        L += ["  become: true", "  become_user: nobody"]
+        L += ["  become: true", "  become_user: %s" % json.dumps(become if isinstance(become, str) else "nobody")]
     if post:
         L += ["- command:", "    cmd: \"echo post >> %s/log\"" % root]
     open(os.path.join(root, "main.rh"), "w").write("\n".join(L) + "\n")
     os.chmod(os.path.join(root, "main.rh"), 0o644)
     dump = os.path.join(root, "dump.json")
-    env = dict(os.environ, VH_DUMP=dump, VH_EXIT=str(vh_exit))
+    env = dict(os.environ, VH_DUMP=dump, VH_EXIT=str(vh_exit), HOME="/root", USER="root", LOGNAME="root", VP_KEEP="kept")
     p = subprocess.Popen([C.RASH] + rash_env_args + ["--output", "raw", os.path.join(root, "main.rh")], stdout=subprocess.PIPE, stderr=subprocess.PIPE,
                          env=env, cwd=root, start_new_session=True)
     try:
@@ -65,7 +81,7 @@ def run_transfer(root, pre, argv_or_cmd, chdir, become, vh_exit, rash_env_args, 
     except Exception:
         d = None
     log = open(os.path.join(root, "log")).read().split()
-    return dict(pid=p.pid, rc=rc, dump=d, log=log, stderr=se.decode("utf-8", "replace")[-300:])
+    return dict(pid=p.pid, rc=rc, dump=d, log=log, stderr=se.decode("utf-8", "replace")[-300:], env_given=env)
 
 
 ARGS = [[], ["plain"], ["two words", ""], ["'q'", '"dq"', "$HOME", "a;b"], ["  lead", "trail  ", "\t"], ["é✓", "-x", "--"]]
@@ -77,11 +93,11 @@ def c14(run, replay=None):
     cases = []
     for args in ARGS:
         for chdir in (None, "wd sub"):
-            for become in ((False, True) if nb and os.geteuid() == 0 else (False,)):
+            for become in ([False] + [u[0] for u in become_users()] if nb and os.geteuid() == 0 else [False]):
                 for pre in (0, 2):
                     cases.append(dict(args=args, chdir=chdir, become=become, pre=pre, vh_exit=rng.choice([0, 1, 7, 42, 255])))
     if run.tier == "quick":
-        cases = rng.sample(cases, min(len(cases), 30)) + cases[:4]
+        cases = rng.sample(cases, min(len(cases), 40)) + cases[:10]
     for st in range(0, 256, (51 if run.tier == "quick" else 1)):
         cases.append(dict(args=["st"], chdir=None, become=False, pre=1, vh_exit=st))
     res = [None] * len(cases)
@@ -91,14 +107,14 @@ def c14(run, replay=None):
         root = os.path.join(C.SANDBOX, "x%d" % si)
         for idx, c in parts[si]:
             chdir = os.path.join(root, c["chdir"]) if c["chdir"] else None
-            res[idx] = run_transfer(root, c["pre"], [C.VH, "execdump"] + c["args"], chdir, c["become"], c["vh_exit"], ["-e", "VP_FROM_E=e v"])
+            res[idx] = run_transfer(root, c["pre"], [C.VH, "execdump"] + c["args"], chdir, c["become"], c["vh_exit"], ["-e", "VP_FROM_E=e v", "-e", "HOME=/custom/home"])
             res[idx]["root"] = root
     ths = [threading.Thread(target=work, args=(i,)) for i in range(len(parts))]
     [t.start() for t in ths]
     [t.join() for t in ths]
     nontrivial = set()
     for c, o in zip(cases, res):
-        desc = dict(case=c, observed={k: v for k, v in o.items() if k != "root"})
+        desc = dict(case=c, observed={k: v for k, v in o.items() if k not in ("root", "env_given")})
         d = o["dump"]
         if d is None:
             run.violation("transfer_pid: the command did not run (rc=%s, stderr=%s)" % (o["rc"], o["stderr"]), desc)
@@ -115,8 +131,16 @@ def c14(run, replay=None):
             problems.append("cwd %r != %r" % (d["cwd"], want_cwd))
         if d["env"].get("VP_FROM_E") != "e v".encode().hex():
             problems.append("-e variable missing in the environment: %r" % d["env"])
-        if c["become"] and (d["uid"], d["gid"], d["euid"]) != (nb[0], nb[1], nb[0]):
-            problems.append("credentials %r != nobody %r" % ((d["uid"], d["gid"]), nb))
+        # the whole environment: what rash was started with, plus the -e pairs (which win), nothing else touched
+        want_env = dict(o["env_given"], VP_FROM_E="e v", HOME="/custom/home")
+        got_env = {k: bytes.fromhex(v).decode("utf-8", "replace") for k, v in d["env"].items()}
+        diff = {k: (want_env.get(k), got_env.get(k)) for k in set(want_env) | set(got_env) if want_env.get(k) != got_env.get(k)}
+        if diff:
+            problems.append("environment differs (expected, got): %r" % diff)
+        if c["become"]:
+            bu = [u for u in become_users() if u[0] == c["become"]][0]
+            if (d["uid"], d["gid"], d["euid"]) != (bu[1], bu[2], bu[1]):
+                problems.append("credentials uid/gid %r != %r of become_user %s" % ((d["uid"], d["gid"]), (bu[1], bu[2]), bu[0]))
         if not c["become"] and d["uid"] != os.getuid():
             problems.append("uid changed without become: %r" % d["uid"])
         if o["rc"] != c["vh_exit"]:
@@ -140,8 +164,8 @@ def c14(run, replay=None):
     if o["rc"] in (0, "timeout") or o["log"] != ["pre0"]:
         run.violation("transfer_pid with a missing executable: rc=%r log=%r" % (o["rc"], o["log"]), dict(observed=o))
     run.coverage.update(evaluations=len(cases) + len(cmds) + 1, distinct_nontrivial=len(nontrivial),
-                        rule="argv contents (empty list, blanks, quotes, shell metacharacters, empty strings, UTF-8, dash words) x chdir x become to nobody x position of the task x exit statuses "
-                             "(all 0-255 in thorough); each run: PID of the helper == PID of the rash process, argv, cwd, -e environment, uid/gid, wait status, marker log; cmd form vs the model's split_whitespace; missing executable; "
+                        rule="argv contents (empty list, blanks, quotes, shell metacharacters, empty strings, UTF-8, dash words) x chdir x become (nobody and a user whose gid differs from its uid, each by name and by number) x position of the task x exit statuses "
+                             "(all 0-255 in thorough); each run: PID of the helper == PID of the rash process, argv, cwd, the whole environment (-e pairs win over inherited values, nothing else differs), uid/gid, wait status, marker log; cmd form vs the model's split_whitespace; missing executable; "
                              "non-trivial = distinct cases in which the helper actually ran",
                         samples=cases[:3], traces_validated_against_impl=len(cases), trusted_base=TB14, exhaustive=False)
     run.assumptions = ["harness runs as root (needed for become)", "supplementary groups are not part of the property"]
@@ -201,6 +225,15 @@ def c15(run, replay=None):
     want = "%d\n\n%d\n\n\n" % (nb[0], os.getuid())
     if o["rc"] != 0 or not o["stdout"].startswith(want) or ("<<u>> é✓ 12 true 0 true %d" % os.getuid()) not in o["stdout"]:
         run.violation("become credentials / registered result: %r" % o, dict(script=script, observed=o))
+    # every way of naming the user: uid AND primary gid of the passwd entry, inside; the caller's own, after
+    for bu, uid, gid in become_users():
+        sc = ("#!/usr/bin/env rash\n- command: id -u\n  become: true\n  become_user: %s\n- command: id -g\n  become: true\n  become_user: %s\n- command: id -u\n- command: id -g\n"
+              % (json.dumps(bu), json.dumps(bu)))
+        o = E.run_impls([dict(files={"main.rh": dict(raw=sc)}, world_writable=True)], timeout=15)[0]
+        want = "%d\n\n%d\n\n%d\n\n%d\n\n" % (uid, gid, os.getuid(), os.getgid())
+        if o["rc"] != 0 or o["stdout"] != want:
+            run.violation("become_user %s: expected uid/gid %d/%d inside and %d/%d afterwards, got stdout %r (rc %r)" % (bu, uid, gid, os.getuid(), os.getgid(), o["stdout"], o["rc"]),
+                          dict(script=sc, observed=o))
     # K17: a failing become task inside an include that has ignore_errors
     inc = "#!/usr/bin/env rash\n- command: \"false\"\n  become: true\n  become_user: nobody\n- command: \"echo incafter >> ROOT/log\"\n"
     main = "#!/usr/bin/env rash\n- include: ROOT/inc.rh\n  ignore_errors: true\n- command: \"id -u >> ROOT/log\"\n"
